@@ -139,8 +139,9 @@ def strict(v, t, path="", exact=False):
                 return r
         return None
     if k == "set":
-        if not isinstance(v, set):
-            return (path, f"expected set, got {type(v).__name__}")
+        want = frozenset if t.extra == "frozen" else set
+        if not isinstance(v, want):
+            return (path, f"expected {want.__name__}, got {type(v).__name__}")
         for x in v:
             r = strict(x, t.children[0], f"{path}{{}}", exact)
             if r:
